@@ -16,7 +16,7 @@ from checks import _pool as P
 from mc.core import Out, drive
 
 PROP = "C10"
-CHAINS = ["P25-task-then-chain", "P26-two-tasks-then-chain", "P27-chain-then-task-restart", "P16-chain-after-start", "P17-chain-before-start", "P18-chain-after-restart", "P23-chain3", "P11-saturate",
+CHAINS = ["P30-stop-while-busy-restart-chain", "P25-task-then-chain", "P26-two-tasks-then-chain", "P27-chain-then-task-restart", "P16-chain-after-start", "P17-chain-before-start", "P18-chain-after-restart", "P23-chain3", "P11-saturate",
           "P7-more-prequeued-than-workers", "P4-gated-then-plain", "P12-bounded-queue", "P24-enq-during-idle-retire",
           "P3-idle-timeout-then-enqueue", "P9-start-races-submitter", "P2-two-submitters"]
 HEAVY = ["P19-chain-with-second-submitter", "P22-backlog-then-chain"]
